@@ -173,16 +173,22 @@ func (w window) phantomInsert(cut int64) bool {
 	return ok && !e.tomb && parsed == 0
 }
 
-// collidingHeader: signature of the known finding torn-header-id-collision (a fragment whose
-// truncated id is neither zero nor the real id but the id of another series issued by the same
-// partition; only multiples of 256 qualify, i.e. partition 7).
-func (w window) collidingHeader(cut int64, issued map[uint64]int) bool {
+// collidingHeader: signature of the known findings torn-header-id-collision (insert fragment) and
+// torn-tombstone-id-collision (tombstone fragment): a fragment whose truncated id is neither zero
+// nor the real id but the id of another series issued by the same partition; only multiples of
+// 256 qualify, i.e. partition 7. Returns the key of the finding, "" if the cut is not of that kind.
+func (w window) collidingHeader(cut int64, issued map[uint64]int) string {
 	e, parsed, ok := w.tornHeader(cut)
 	if !ok || parsed == 0 || parsed == e.id || int((parsed-1)%nPart) != w.part {
-		return false
+		return ""
 	}
-	_, was := issued[parsed]
-	return was
+	if _, was := issued[parsed]; !was {
+		return ""
+	}
+	if e.tomb {
+		return knownTombCollision
+	}
+	return knownCollision
 }
 
 // imageModel derives the expected state of an image from the model after the create: entries of
@@ -351,8 +357,8 @@ func (m *machine) tornCreate(batch []int, nEnum int, choose cutChooser, compactI
 			}
 			sel[w.part] = pos + entryHeader
 		}
-		if w.collidingHeader(sel[w.part], m.mod.keyOf) && ev.KnownOpen("C13", knownCollision) {
-			rec.ExcludedKnown(knownCollision)
+		if k := w.collidingHeader(sel[w.part], m.mod.keyOf); k != "" && ev.KnownOpen("C13", k) {
+			rec.ExcludedKnown(k)
 			sel[w.part] = w.end // adopt the complete append instead
 		}
 	}
@@ -443,10 +449,10 @@ func (m *machine) describeCut(w window, cut int64) string {
 // SeriesPartition and checks it; optionally compacts its index and checks again; finally creates
 // every absent key of the partition and demands fresh ids.
 func (m *machine) partitionImage(w window, cut int64, wins []window, lost [nPart][]entry, compact bool) {
-	if w.collidingHeader(cut, m.mod.keyOf) {
+	if k := w.collidingHeader(cut, m.mod.keyOf); k != "" {
 		rec.Class("torn:cut-leaves-colliding-truncated-id")
-		if ev.KnownOpen("C13", knownCollision) {
-			rec.ExcludedKnown(knownCollision)
+		if ev.KnownOpen("C13", k) {
+			rec.ExcludedKnown(k)
 			return
 		}
 	}
